@@ -49,7 +49,7 @@ def oracle(cases, obs, light=False):
             store = {json.dumps(p): v for p, v in o["store"]}
             if op[0] == "set" and o["err"] is None:
                 key = json.dumps(flat(op[1]))
-                if op[2][0] == "plain":
+                if op[2][0] == "plain" and isinstance(op[2][1], int):
                     last_plain[key] = op[2][1]
                 else:
                     last_plain.pop(key, None)
@@ -85,7 +85,8 @@ def known_finding_status():
 def run(ctx):
     ctx.rule = ("random assignment histories (plain value / expression / in-place / removal / re-definition, consumer-before-producer) over nested "
                 "dict/list/attribute containers with an acyclic data flow by construction, flat histories, wide fan-in, chains of 1500/5000 "
-                "dependants in both definition orders; every assignment judged by the pull-model oracle; non-trivial = an assignment that "
+                "dependants in both definition orders, plus histories over mixed value types (floats incl. nan/inf/-0.0, numpy scalars and arrays, "
+                "complex, huge ints, strings, None; oracle only); every assignment judged by the pull-model oracle; non-trivial = an assignment that "
                 "triggered >= 1 task in a history with >= 2 definitions; distinct by history prefix")
     ctx.scale_if_changed()
     proof_ok = vlib.standard_proof_part(ctx, "props/C01.v", extra_targets=["run/RunManager.vo"])
@@ -104,6 +105,13 @@ def run(ctx):
         got = dict((json.dumps(p), v) for p, v in ol[-1]["store"]).get(json.dumps(["c", f"v{len(c['ops']) - 1}"]))
         if ol[-1]["err"] is None and got != want:
             fails.append((len(cases), len(c["ops"]) - 1, f"end of a chain of {len(c['ops'])-1} dependants holds {got}, expected {want}"))
+    # value TYPES beyond small integers (floats incl. nan/inf, numpy scalars and arrays, complex, huge ints, strings, None):
+    # outside the Coq model's domain, judged by the pull-model oracle on the error-free prefix of each history
+    mixed = [mc.gen_history(ctx.rng, ["assign", "assign_flat"][i % 2], nops=ctx.rng.randint(4, 20), values="mixed") for i in range(ctx.pick(100, 2000))]
+    pc, po = mc.error_free_prefix(mixed, mc.run_impl_cases(mixed))
+    mf, _ = oracle(pc, po)
+    fails += [(len(cases) + len(big) + i, k, w) for i, k, w in mf]
+    ctx.evaluations += sum(len(c["ops"]) for c in pc)
     sub = cases[: ctx.pick(100, 1500)]
     seeds = list(range(1, ctx.pick(3, 12)))
     for sd in seeds:
@@ -119,7 +127,7 @@ def run(ctx):
                             f"container): witness g.n.x=g.a*2; g.n.z=g.n.y*3; g.n.y=g.n.x+1; g.a=5 fails for PYTHONHASHSEED in {failing}")
         else:
             ctx.notes.append("known finding C01/ordering-cycle: the listed witness no longer fails on this tree")
-    allc, allo = cases + big, obs + bobs
+    allc, allo = cases + big + pc, obs + bobs + po
     for c, ol in zip(cases, obs):
         defs = 0
         for k, (op, o) in enumerate(zip(c["ops"], ol)):
